@@ -12,6 +12,9 @@ CONSTANTS
   Silence = 0
   HasForce = TRUE
   DecayMax = 0
+  DecayKinds = {"fixed1"}
+  BumpKinds = {"bounded"}
+  Deltas = {1}
   DecayEvery = 1
   Split = FALSE
   MaxBurst = 2
